@@ -234,6 +234,7 @@ func checkC15(w *World, r *Report) {
 	checkModTimeSources(w, r)
 	checkExistsAndRegistry(w, r)
 	checkSettersUnconditional(w, r)
+	checkLoadersAlwaysRegistered(w, r)
 	// loaders are only appended
 	n2 := 0
 	for _, fn := range w.pkgFuncs() {
@@ -1506,4 +1507,70 @@ func checkSettersUnconditional(w *World, r *Report) {
 		})
 	}
 	r.floor("field stores in the engine's boolean switches", n, 4)
+}
+
+// checkLoadersAlwaysRegistered — R15.10: a loader handed to the engine is on the loader list
+// afterwards.  In every Engine method that appends a Loader parameter to Engine.loaders the
+// append is controlled by nothing but a nil test of the parameter or an identity comparison of
+// the parameter with a loader already registered: a test that looks into the loaders (structural
+// equality, a type name, a probe for some template) drops a loader that merely looks like another
+// one at the moment it is registered, and the names only it has are never found.
+func checkLoadersAlwaysRegistered(w *World, r *Report) {
+	n := 0
+	for _, fn := range w.pkgFuncs() {
+		if fn.Signature.Recv() == nil || !isNamed(deref(fn.Signature.Recv().Type()), twigPath, "Engine") || fn.Synthetic != "" {
+			continue
+		}
+		var lp *ssa.Parameter
+		for _, p := range fn.Params[1:] {
+			if isNamed(p.Type(), twigPath, "Loader") {
+				lp = p
+			}
+		}
+		if lp == nil {
+			continue
+		}
+		instrsOf(fn, func(in ssa.Instruction) {
+			st, ok := in.(*ssa.Store)
+			if !ok {
+				return
+			}
+			if _, ok := fieldAddr(st.Addr, "Engine", "loaders"); !ok {
+				return
+			}
+			// the stored list contains the parameter
+			holds := false
+			for _, v := range originChain(st.Val) {
+				if c, ok := v.(*ssa.Call); ok {
+					if b, ok := c.Call.Value.(*ssa.Builtin); ok && b.Name() == "append" {
+						holds = true
+					}
+				}
+			}
+			if !holds {
+				return
+			}
+			n++
+			construct := "the loader is appended whatever it looks like"
+			bad := ""
+			for _, c := range controllingConds(in) {
+				if bo, ok := c.(*ssa.BinOp); ok && (bo.Op == token.EQL || bo.Op == token.NEQ) {
+					px, py := origin(bo.X) == ssa.Value(lp), origin(bo.Y) == ssa.Value(lp)
+					if (px && isNilConst(bo.Y)) || (py && isNilConst(bo.X)) {
+						continue // nil test of the parameter
+					}
+					if (px || py) && types.IsInterface(bo.X.Type()) && types.IsInterface(bo.Y.Type()) {
+						continue // identity with a registered loader
+					}
+				}
+				bad = w.posOf(c.Pos())
+			}
+			if bad == "" {
+				r.ok("R15.10", ssaName(fn), construct, w.posOf(in.Pos()), "controlled at most by a nil test or an identity comparison of the parameter", true)
+			} else {
+				r.bad("R15.10", ssaName(fn), construct, w.posOf(in.Pos()), "whether the loader enters the list depends on the test at "+bad+", which is neither a nil test nor an identity comparison: a loader that looks like a registered one when it is handed in (two empty in-memory loaders, two loaders for the same directory) is dropped and never consulted")
+			}
+		})
+	}
+	r.floor("registrations of a loader on the engine", n, 1)
 }
